@@ -13,6 +13,28 @@ t('C19', 'E1', 'exhaustive enumeration of all (chain, trust list) pairs over a l
   'Every chain (length 1..3 quick / 1..4 thorough) x every trust list (length 0..3 / 0..4) over a pool of seven look-alike certificates is run through the real VerifyAuthenticity and compared with a byte-equality reference; plus the complete scheme x time table of AuthenticSigningTime. The space is a finite product and is enumerated completely (evaluations are checked against the closed form).',
   'Look-alikes outside the seven pool members are not explored. crypto/x509 parsing is trusted to return Raw = input DER.')
 
+t('C03', 'E1', 'exhaustive enumeration of chain descriptions (single violations, benign x violation pairs, violation pairs) against a reference model evaluated on the description',
+  'Chains of length 1..3 (quick) / 1..5 (thorough) are forged from descriptions; every single requirement violation at every position, every benign variation, every (benign, violation) pair and (thorough) every pair of violations is validated by the real ValidateCodeSigningCertChain, the revocation validators and Sign() in both formats, and compared with a reference computed from the description. Signing-time boundaries are exact (NotBefore, NotAfter, +-1 s).',
+  'crypto/x509 certificate creation and parsing are trusted. Don\'t-care zones (contentCommitment, EKU on CAs, unknown critical extensions, shared keys) are not generated. Validity windows sit >= 2 h from the clock.')
+t('C14', 'E1', 'exhaustive enumeration of TSA chain descriptions incl. all 16 EKU subsets x criticality against a reference model',
+  'Same generator as C03 under the timestamping rule set, with the leaf EKU ranging over all 16 subsets of {timeStamping, codeSigning, any, unknown} x both criticalities; the verdicts of ValidateTimestampingCertChain and of both revocation entry points configured for timestamping are compared with the reference, and the code-signing validator is compared differentially on the same descriptions.',
+  'As C03.')
+t('C04', 'E1', 'exhaustive enumeration of responder-behaviour sequences (fault sequences) over 1..3 URLs with ground truth by construction',
+  'Every assignment of 43 responder behaviours to the responder URLs that are actually contacted (full product for <=2 URLs, and for 3 URLs in thorough) x GET/POST-forcing serials x RSA/EC issuer x signing time x both entry points; hand-encoded OCSP responses; the verdict is judged against the authenticity/currency/serial/status ground truth of the contacted behaviours and every request is decoded and checked.',
+  'ECDSA/RSA are trusted; responses sit >= 1 h from the nextUpdate boundary; an unknown critical single extension is a don\'t-care.')
+t('C05', 'E1', 'exhaustive enumeration of CRL bundle behaviours per distribution point (fault sequences) through a fake fetcher and the real HTTPFetcher',
+  'Every assignment of 31 bundle behaviours (incl. delta number/indicator at and around the boundary) to the 1..3 distribution points actually contacted, through both a caller-supplied fetcher and the real HTTPFetcher, x RSA/EC issuer x freshest-CRL pointer in the certificate x issuer without cRLSign; hand-encoded DER CRLs; verdict judged against the generating descriptions.',
+  'CRLs sit >= 24 h from the nextUpdate boundary. A non-matching entry with an unknown critical extension is a don\'t-care.')
+t('C10', 'E1', 'complete small-scope enumeration of base/delta CRL entry lists against a reference interpreter',
+  'Every entry list up to length 2 over the full 292-entry alphabet (reasons absent/0..10 x 3 revocation times x 4 invalidity-date positions x critical-extension flag + other-serial representatives), every base/delta split, signing time zero/non-zero; length 3 and 4 over reduced alphabets. Each list is a real signed DER CRL judged through ValidateContext against a reference interpreter of the statement.',
+  'Lists beyond the stated lengths are not explored. Two don\'t-care zones (hold/remove ties; exempted remove entries) accept either verdict.')
+t('C11', 'E1', 'complete decision-table enumeration (responders x distribution points x outcome classes x purposes x entry points) with request-log oracle',
+  'The whole table o in 0..3, c in 0..3, every outcome class of every contacted source, both purposes, both entry points, plus bounded deviations on chains of length 3..4; result, method label, ordered server results and the per-certificate request sequence are compared with the statement\'s table.',
+  'One representative behaviour per outcome class (the behaviour alphabets are covered by C04/C05/C06).')
+t('C06', 'E1', 'deviation-bounded and full-product fault enumeration over every OCSP / CRL URL, cache operation and cancellation point',
+  'Fault alphabets of 24 OCSP and 20 CRL answers (transport errors, timeouts, non-200 with genuine bodies, empty/truncated/oversized/garbage bodies, OCSP error statuses, cancellation before/during/after a request, 32 MiB and endless bodies) x cache faults with DiscardCacheError on/off x non-http URL strings, full product on one certificate with up to (3,3) sources and bounded deviations on chains of length 3..4; fail-closed implication plus an isolation table.',
+  'Evidence of good standing is the class of the answer actually delivered. Panics are judged by C09.')
+
 checks = []
 na = []
 for p in props:
